@@ -40,3 +40,46 @@ Example C12_nonvacuous :
   exists text, to_props false st f = Some text
                /\ parse_properties false text = Some (100, 2000, f).
 Proof. cbv zeta. eexists. split; vm_compute; reflexivity. Qed.
+
+(* ---- links ---- *)
+(** C12 o C01/C03: a loader that knows only the TEXT of the properties file (as
+    [BvGraphSeq::with_basename] / [BvGraph::with_basename] do) reconstructs the compressed
+    graph from the encoder's stream, sequentially and by random access; the existence of the
+    file implies the codes are decodable; the other endianness is refused. *)
+From WG Require Import BV.Bits BV.BitsFacts BV.Access BV.AccessStatements
+  Links.LoadLinkStatements Links.LoadLinkFacts.
+
+Theorem C12_link_written_codes_ok : S_link_written_codes_ok.
+Proof. exact link_written_codes_ok. Qed.
+Print Assumptions C12_link_written_codes_ok.
+
+Theorem C12_link_load_seq : S_link_load_seq.
+Proof. exact link_load_seq. Qed.
+Print Assumptions C12_link_load_seq.
+
+Theorem C12_link_load_seq_greedy : S_link_load_seq_greedy.
+Proof. exact link_load_seq_greedy. Qed.
+Print Assumptions C12_link_load_seq_greedy.
+
+Theorem C12_link_load_ra : S_link_load_ra.
+Proof. exact link_load_ra. Qed.
+Print Assumptions C12_link_load_ra.
+
+Theorem C12_link_load_wrong_endianness : S_link_load_wrong_endianness.
+Proof. exact link_load_wrong_endianness. Qed.
+Print Assumptions C12_link_load_wrong_endianness.
+
+(** non-vacuity: a little-endian text with non-default codes is written, and the graph is
+    loaded back from the text and the greedy compressor's stream *)
+Example C12_link_nonvacuous :
+  let f := mkFlags (mkCodes Delta Gamma Delta Gamma (Zeta 2)) 3 2 2 in
+  let g := [[1;2;3;4;5;9]; [1;2;3;4;5;10]; []; [0;1;2;3;4;5;6;7;20]] in
+  let st := mkStats 4 21 0 in
+  let p := params_of_flags f in
+  exists text, to_props true st f = Some text /\ stats_for g st
+    /\ load_seq true text
+         (graph_bits true (fl_codes f) (encode_graph p 0 g (greedy_sel p (fl_codes f) 0 g))
+          ++ [true; false])
+       = Some (g, [true; false]).
+Proof. cbv zeta. eexists. split; [vm_compute; reflexivity|]. split; [split; reflexivity|].
+  vm_compute. reflexivity. Qed.
